@@ -9,6 +9,18 @@ NOTE_COMMON = ("Trusted: Lean 4.33 kernel; axioms propext/Classical.choice/Quot.
                "differential execution (sampling, not proof); harness, generators and the cfg(sentinel_verif) hooks; std, lru, serde are not modelled.")
 
 CLAIMS = {
+ "C08": dict(
+    category="translation_validation",
+    text=("PARTIAL. Proved in Lean: structural theorems about the executable warm-up calculator for every state/threshold/clock (sync_stored_le_max, sync_once_per_second, sync_idempotent, "
+          "no_refill_when_saturated, drain_by_previous_qps, refill_when_cold_or_low, idle_cools, allowed_full_below_warning, warmup_step_decision) and exact-arithmetic theorems about the formulas "
+          "the f64 code evaluates (allowedQ_bounds: allowance in [q/c, q]; allowedQ_cold / allowedQ_warm; allowedQ_antitone; max_token_le_two_periods: 2p idle seconds refill the whole bucket). "
+          "NOT proved: that the f64 evaluation stays within rounding of the exact formula, and the closed-loop trajectory. These are decided on every run by validation: the soft-float model "
+          "reproduces every decision of flow/traffic_shaping/warmup.rs bit-exactly over saturating / at-allowance / below-q/c / on-off demand profiles (single-token requests on 1..20 ms grids), and the "
+          "Spec oracle on the implementation's traces checks: never more than q per statistic interval, rejections only above the cold rate q/c, cold start at about q/c, per-second admissions "
+          "non-decreasing under saturating demand, q reached within 2p+2 s, cold again after an idle period >= 2p s."),
+    design_ref="DESIGN.md §6 C08",
+    technique="Lean 4 theorems for the calculator and the exact formulas + translation validation of the closed loop (bit-exact soft-float model vs implementation, Spec oracle on traces)",
+    note=NOTE_COMMON + " The closed loop feeds the measured previous-second QPS back into the calculator; with request batches coarser than q/c the rule never warms up (characterised, outside the quantifier: single-token requests)."),
  "C03": dict(
     category="proof",
     text=("State-machine clauses for every strategy, rule and clock value: open_rejects_until_retry, open_lets_one_probe_through, half_open_rejects (exactly one probe per Half-Open phase), "
